@@ -89,7 +89,10 @@ class Ctx:
         self.obligations.append(rec)
         self.instances[rule] = self.instances.get(rule, 0) + 1
 
-    def violation(self, rule: str, fi_or_where, node: Optional[ast.AST], message: str, path: Optional[List[str]] = None, file: Optional[str] = None) -> None:
+    def violation(self, rule: str, fi_or_where, node: Optional[ast.AST], message: str, path: Optional[List[str]] = None, file: Optional[str] = None, tag: Optional[str] = None) -> None:
+        """``tag``: a name for *what* is wrong, used instead of the normalised statement as the last component of the
+        finding's key when the same defect can be written in several shapes (keeps a known finding stable under
+        refactoring without hiding a different defect of the same rule in the same function)."""
         if isinstance(fi_or_where, FuncInfo):
             fi = fi_or_where
             where = fi.where
@@ -101,6 +104,9 @@ class Ctx:
             stmt = norm_text(node) if node is not None else where
             fil = file or where.split(":")[0]
             line = getattr(node, "lineno", 0) if node is not None else 0
+        if tag is not None:
+            message = f"{message}  | {stmt}"
+            stmt = f"#{tag}"
         f = Finding(self.prop, rule, where, stmt, fil, line, message, path)
         if f.key not in {x.key for x in self.findings}:
             self.findings.append(f)
